@@ -63,10 +63,27 @@ func (core *JApiCore) buildUserTypes() *jerr.JApiError {
 		return adoptError(err)
 	}
 
+	// Add rules to all user types before we try to do something with any of them.
+	// A user type is loaded as soon as it is met among dependencies of another
+	// type, and rules cannot be added to the loaded type.
+	err = core.userTypes.Each(core.addRulesToUserType)
+	if err != nil {
+		return adoptError(err)
+	}
+
 	err = core.userTypes.Each(func(n string, _ schema.Schema) error {
 		return core.compileUserTypeWithAllDependencies(n)
 	})
 	return adoptError(err)
+}
+
+func (core *JApiCore) addRulesToUserType(name string, ut schema.Schema) error {
+	for n, r := range core.rules {
+		if err := ut.AddRule(n, r); err != nil {
+			return jschemaToJAPIError(err, core.rawUserTypes.GetValue(name))
+		}
+	}
+	return nil
 }
 
 func (core *JApiCore) compileUserTypeWithAllDependencies(name string) error {
@@ -82,13 +99,6 @@ func (core *JApiCore) compileUserTypeWithAllDependencies(name string) error {
 	}
 
 	dd := core.rawUserTypes
-
-	// Add rules before we try to do something with the type.
-	for n, r := range core.rules {
-		if err := currUT.AddRule(n, r); err != nil {
-			return jschemaToJAPIError(err, dd.GetValue(n))
-		}
-	}
 
 	tt, err := fetchUsedUserTypes(currUT, core.userTypes)
 	if err != nil {
